@@ -6,7 +6,7 @@ package openapi3
 // The specification functions below are written from JSON-Schema draft-4 section 5 and the
 // OpenAPI 3.0.3 "Schema Object" text, keyword by keyword - not from the code.
 
-//@ global nonnil errSchema ErrSchemaInputNaN ErrSchemaInputInf
+//@ global nonnil errSchema:*errors.errorString ErrSchemaInputNaN:*errors.errorString ErrSchemaInputInf:*errors.errorString
 
 // ---- type keyword ----
 //@ spec includes(t *Types, typ string) bool := t != nil && inStrings(*t, typ)
@@ -27,7 +27,7 @@ package openapi3
 //@ func (*Schema).expectedType
 //@   requires schema != nil && settings != nil && schema.Type != nil
 //@   modifies nothing
-//@   ensures result != nil
+//@   ensures result != nil && typeof(result) != type MultiError
 //@   tag C01 C10
 
 // ---- numbers: type, minimum/maximum (draft-4 boolean exclusive*), multipleOf ----
@@ -95,4 +95,56 @@ package openapi3
 //@   modifies nothing
 //@   loop 0 invariant length == runesPrefix(value, #pos) && 0 <= length && length <= #pos
 //@   ensures [verdict] (result == nil) <==> validString(schema, value)
+//@   tag C01 C10 C12
+
+// ---- the recursive validity predicate ----
+// valid(s, v) is DEFINED as "visitJSON(s, v) returns nil" (the `defines` clause on visitJSON); what
+// is PROVED, function by function, is that this equals the draft-4 / OpenAPI 3.0 semantics one level
+// down (validTop and the per-type predicates), with valid(.,.) standing for the sub-schemas. The
+// heap it reads is not written by validation outside request/response mode (frame obligations).
+//@ spec valid(s *Schema, v any) bool reads Schema.*, SchemaRef.*, *Types, []any, map[string]any, []*SchemaRef, map[string]*SchemaRef, []string, *float64, *uint64, *bool
+//@ spec distinct(a []any) bool reads []any, map[string]any
+
+//@ func foundUnresolvedRef
+//@   modifies nothing
+//@   ensures result != nil
+
+// path marking returns the error it was given
+//@ func markSchemaErrorKey
+//@   modifies SchemaError.reversePath
+//@   ensures result == err
+//@ func markSchemaErrorIndex
+//@   modifies SchemaError.reversePath
+//@   ensures result == err
+
+//@ fnfield SliceUniqueItemsChecker (items)
+//@   modifies nothing
+//@   defines result == distinct(items)
+//@ func isSliceOfUniqueItems
+//@   modifies nothing
+//@   defines result == distinct(xs)
+
+//@ func (*Schema).visitJSON
+//@   requires schema != nil && settings != nil
+//@   modifies nothing
+//@   defines (result == nil) <==> valid(schema, value)
+//@   defines typeof(result) == type MultiError ==> len(result.(MultiError)) > 0
+
+// ---- arrays: type, minItems/maxItems, uniqueItems, items ----
+//@ spec sizeOK(s *Schema, n int) bool := s.MinItems <= n && (s.MaxItems != nil ==> n <= *s.MaxItems)
+//@ spec validArray(s *Schema, a []any) bool :=
+//@     permits(s.Type, "array")
+//@  && sizeOK(s, len(a))
+//@  && (s.UniqueItems ==> distinct(a))
+//@  && (s.Items != nil ==> (forall i int :: 0 <= i && i < len(a) ==> valid(s.Items.Value, a[i])))
+
+//@ func (*Schema).visitJSONArray
+//@   requires schema != nil && settings != nil
+//@   assuming !settings.asreq && !settings.asrep
+//@   assuming schema.Items != nil ==> schema.Items.Value != nil
+//@   modifies nothing
+//@   loop 0 invariant !settings.multiError ==> len(me) == 0
+//@   loop 0 invariant (len(me) == 0) <==> (sizeOK(schema, len(value)) && (schema.UniqueItems ==> distinct(value)) && (forall j int :: 0 <= j && j < #i ==> valid(schema.Items.Value, value[j])))
+//@   ensures [verdict] (result == nil) <==> validArray(schema, value)
+//@   ensures [nonempty-multi] typeof(result) == type MultiError ==> len(result.(MultiError)) > 0
 //@   tag C01 C10 C12
